@@ -191,7 +191,7 @@ class TestRecording:
                 "splitting": True,
                 "ctorfail": False,
                 "wl": {"maxv": maxv, "maxc": maxv, "autosplit": autosplit, "diti": diti},
-                "flags": {"records": True, "robot": dev != "base", "comp": False, "norm": False, "file": False, "fullhist": False},
+                "flags": {"records": True, "robot": dev != "base", "comp": False, "norm": False, "file": False, "fullhist": False, "deep": False},
                 "lw": self.lw_init,
                 "events": events,
             }
